@@ -246,7 +246,7 @@ def run_long_reuse(case):
     shared = mk()
     viol = []
     n = 0
-    cwd0 = os.getcwd()
+    cwd0 = os.path.dirname(os.path.dirname(os.path.dirname(os.path.abspath(__file__))))
     for rnd in range(3):
         for name in sorted(texts, reverse=bool(rnd % 2)):
             out = gen.pybind(texts[name], wrapper=shared)
